@@ -36,6 +36,41 @@ pub fn helper_main(args: &[String]) {
             }
             std::thread::sleep(std::time::Duration::from_secs(3600));
         },
+        Some("selfdump") => {
+            // helper selfdump <bits>: the process asks for a dump of ITSELF (a sacrificial child of the
+            // checker: if the writer stops the process it is asked to dump, this process freezes).
+            // bit 0: request made from a second thread; bit 1: blame the calling thread instead of the
+            // main thread; bit 2: size limit; bit 3: sanitize; bit 4: stop timeout 0
+            unsafe {
+                libc::prctl(libc::PR_SET_PDEATHSIG, libc::SIGKILL);
+            }
+            let bits: u32 = args.get(1).and_then(|s| s.parse().ok()).unwrap_or(0);
+            let work = move || {
+                let pid = std::process::id() as i32;
+                let tid = unsafe { libc::syscall(libc::SYS_gettid) } as i32;
+                let mut w = minidump_writer::minidump_writer::MinidumpWriter::new(pid, if bits & 2 != 0 { tid } else { pid });
+                if bits & 4 != 0 {
+                    w.set_minidump_size_limit(1);
+                }
+                if bits & 8 != 0 {
+                    w.sanitize_stack();
+                }
+                if bits & 16 != 0 {
+                    w.stop_timeout(std::time::Duration::from_millis(0));
+                }
+                let mut out = std::io::Cursor::new(Vec::new());
+                match std::panic::catch_unwind(std::panic::AssertUnwindSafe(|| w.dump(&mut out))) {
+                    Ok(Ok(_)) => println!("selfdump: ok"),
+                    Ok(Err(e)) => println!("selfdump: err {}", format!("{e:?}").split('(').take(2).collect::<Vec<_>>().join("(")),
+                    Err(_) => println!("selfdump: panic"),
+                }
+            };
+            if bits & 1 != 0 {
+                let _ = std::thread::spawn(work).join();
+            } else {
+                work();
+            }
+        }
         Some("fuzz-seeds") => {
             // helper fuzz-seeds <target> <dir>: deterministic seed corpus from the proptest generators
             use proptest::strategy::{Strategy, ValueTree};
